@@ -134,6 +134,14 @@ func (c *Client) handleAcceptVersion(msg protocol.Message) error {
 		)
 	}
 	msgAcceptVersion := msg.(*MsgAcceptVersion)
+	// The peer may only accept a version that we proposed
+	proposedVersionData, ok := c.config.ProtocolVersionMap[msgAcceptVersion.Version]
+	if !ok {
+		return fmt.Errorf(
+			"protocol version accepted by peer was not proposed: %d",
+			msgAcceptVersion.Version,
+		)
+	}
 	protoVersion := protocol.GetProtocolVersion(msgAcceptVersion.Version)
 	if protoVersion.NewVersionDataFromCborFunc == nil {
 		return fmt.Errorf(
@@ -146,6 +154,17 @@ func (c *Client) handleAcceptVersion(msg protocol.Message) error {
 	)
 	if err != nil {
 		return err
+	}
+	if versionData == nil {
+		return errors.New("empty version data accepted by peer")
+	}
+	// The accepted version data must be for our network
+	if proposedVersionData != nil &&
+		versionData.NetworkMagic() != proposedVersionData.NetworkMagic() {
+		return fmt.Errorf(
+			"network magic mismatch in version data accepted by peer: %d",
+			versionData.NetworkMagic(),
+		)
 	}
 	return c.config.FinishedFunc(
 		c.callbackContext,
